@@ -83,6 +83,16 @@ Theorem C18_nested_scanner_is_the_scanner_model :
 Proof. exact lexq_model_runs. Qed.
 Print Assumptions C18_nested_scanner_is_the_scanner_model.
 
+(* ... and the items Model/Parser.v hands to the nested parse (those items shifted to the attribute's place
+   in the file) are exactly what the scanner model started at that base -- lexExprAt -- sends *)
+Theorem C18_nested_scanner_at_base :
+  forall (uni_letter uni_digit : Z -> bool), uni_letter (-1)%Z = false -> uni_digit (-1)%Z = false ->
+  forall (base : N) str,
+  lex_items_at uni_letter uni_digit (Z.of_N base) (lex_budget str) str
+  = Ok (map (shift_tok base) (lexq_model uni_letter uni_digit str)).
+Proof. exact nested_scanner_at_base. Qed.
+Print Assumptions C18_nested_scanner_at_base.
+
 (* ---------- the item-level statements (any item stream, any nested scanner) ---------- *)
 (* parse.SoyFile: for every stream of well-formed items in which an EOF item is the last item the
    scanner sends, and every well-formed nested scanner: the call returns a tree or an error (no
